@@ -130,3 +130,51 @@ def r1_validate(workers=16):
     with multiprocessing.Pool(workers) as pool:
         bad = [b for r in pool.map(_r1_chunk, chunks) for b in r]
     return {"code_points": 0x110000, "bad": bad[:10]}
+
+
+def meta_constructors():
+    """every meta constructor over its finite parameter domain (flags) / a sample of integer parameters: constructs or
+    raises a library exception; the pattern compiles under the library's flags; get_pattern() compiles to the same tree"""
+    import re, itertools
+    from pvc import native as N
+    from pvc.bex_export import trees_equal
+    ns = N.pregex_ns()
+    import pregex.core.exceptions as ex
+    lib = tuple(v for v in vars(ex).values() if isinstance(v, type) and issubclass(v, Exception))
+    exprs = []
+    for b in (True, False):
+        exprs += [f"Text({b})", f"Whitespace({b})", f"NonWhitespace({b})", f"IPv4({b})", f"IPv6({b})", f"Date(is_extensible={b})"]
+        for c in (True, False):
+            exprs += [f"HttpUrl({c}, {b})"]
+            for d in (True, False):
+                exprs += [f"Email({c}, {d}, {b})"]
+        for base in range(2, 17):
+            exprs.append(f"Numeral({base}, is_extensible={b})")
+        for cls in ("Integer", "PositiveInteger", "NegativeInteger", "UnsignedInteger", "Decimal", "PositiveDecimal",
+                    "NegativeDecimal", "UnsignedDecimal"):
+            for lo, hi in ((0, 0), (0, 9), (3, 10), (0, 2147483647), (99, 1000), (7, 7)):
+                exprs.append(f"{cls}({lo}, {hi}, is_extensible={b})")
+        exprs += [f"Integer(0, 99, True, {b})", f"Decimal(0, 99, 1, None, True, {b})", f"Word(2, 5, {b}, {b})",
+                  f"WordContains(['a.c', 'x|y'], {b}, {b})", f"WordStartsWith('(', {b}, {b})", f"WordEndsWith(['$', 'ab'], {b}, {b})"]
+    from specs import dates
+    exprs += [f"Date({f!r})" for f in dates.documented_formats()]
+    bad = []
+    n = 0
+    for e in exprs:
+        n += 1
+        try:
+            p = eval(e, ns)
+        except lib:
+            continue
+        except BaseException as err:
+            bad.append({"expr": e, "what": f"raised {type(err).__name__}: {err}"[:200]})
+            continue
+        try:
+            re.compile(str(p), re.M | re.S)
+            g = p.get_pattern()
+            eq, err = trees_equal(g, str(p))
+            if not eq:
+                bad.append({"expr": e, "what": "get_pattern() compiles to a different regex", "detail": str(err)})
+        except re.error as err:
+            bad.append({"expr": e, "what": f"pattern does not compile: {err}", "pattern": str(p)[:200]})
+    return {"evaluations": n, "failures": bad[:20]}
